@@ -68,7 +68,14 @@ var (
 
 func buildServer() {
 	loadKeys()
-	srvErr = mc.Catch(func() {
+	srv, srvErr = newServerFixture(srvStakes, srvPropTh, srvValTh)
+}
+
+// newServerFixture builds a Server over a stub chain reader whose committed
+// validator set gives key i the stake stakes[i] (all chamber validators) and
+// whose round parameters carry the given thresholds.
+func newServerFixture(stakes []int64, propTh, valTh uint64) (s *ucon.Server, errMsg string) {
+	errMsg = mc.Catch(func() {
 		db := state.NewDatabase(youdb.NewMemDatabase())
 		st, err := state.New(common.Hash{}, common.Hash{}, common.Hash{}, db)
 		if err != nil {
@@ -76,8 +83,8 @@ func buildServer() {
 		}
 		for i, k := range keys {
 			pub := crypto.CompressPubkey(&k.ec.PublicKey)
-			tok := new(big.Int).Mul(big.NewInt(srvStakes[i]), params.StakeUint)
-			v := st.CreateValidator(fmt.Sprintf("v%d", i), common.Address{0xa0, byte(i)}, common.Address{0xb0, byte(i)}, params.RoleChancellor, pub, []byte{byte(i)}, tok, big.NewInt(srvStakes[i]), 1, 1000, 5000, params.ValidatorOnline)
+			tok := new(big.Int).Mul(big.NewInt(stakes[i]), params.StakeUint)
+			v := st.CreateValidator(fmt.Sprintf("v%d", i), common.Address{0xa0, byte(i)}, common.Address{0xb0, byte(i)}, params.RoleChancellor, pub, []byte{byte(i)}, tok, big.NewInt(stakes[i]), 1, 1000, 5000, params.ValidatorOnline)
 			if v == nil || v.MainAddress() != crypto.PubkeyToAddress(k.ec.PublicKey) {
 				panic("validator fixture: address mismatch")
 			}
@@ -86,16 +93,17 @@ func buildServer() {
 		if err != nil {
 			panic(err)
 		}
-		cons, err := rlp.EncodeToBytes(&ucon.BlockConsensusData{Round: big.NewInt(1), Seed: srvSeed, ProposerThreshold: srvPropTh, ValidatorThreshold: srvValTh})
+		cons, err := rlp.EncodeToBytes(&ucon.BlockConsensusData{Round: big.NewInt(1), Seed: srvSeed, ProposerThreshold: propTh, ValidatorThreshold: valTh})
 		if err != nil {
 			panic(err)
 		}
 		hdr := &types.Header{Number: big.NewInt(1), ValRoot: valRoot, Consensus: cons}
 		yp := &params.YouParams{}
-		yp.ProposerThreshold, yp.ValidatorThreshold, yp.CertValThreshold = srvPropTh, srvValTh, srvValTh
+		yp.ProposerThreshold, yp.ValidatorThreshold, yp.CertValThreshold = propTh, valTh, valTh
 		yp.StakeLookBack, yp.SeedLookBack = 4, 2
-		srv = ucon.VerifC04Server(&stubChain{hdr: hdr, db: db}, yp, big.NewInt(srvRound), srvRoundIndex)
+		s = ucon.VerifC04Server(&stubChain{hdr: hdr, db: db}, yp, big.NewInt(srvRound), srvRoundIndex)
 	})
+	return
 }
 
 // SInput is the replayable input of a message-level violation.
@@ -125,6 +133,10 @@ func srvCred(ki int, index uint32, fn string) (*cred, string) {
 }
 
 func callServer(fn string, a args) (err error, pmsg string) {
+	return callServerOn(srv, fn, a)
+}
+
+func callServerOn(srv *ucon.Server, fn string, a args) (err error, pmsg string) {
 	pmsg = mc.Catch(func() {
 		pub := &keys[a.key].ec.PublicKey
 		if fn == "verifyPriority" {
